@@ -150,6 +150,10 @@ def option_vectors(rng, nfuncs, tier):
     return vecs
 
 
+INPUT_NAMES = ["a.wasm", "m" * 50 + ".wasm", "m" * 51 + ".wasm", "0123456789abcdef" * 4 + ".wasm", "n" * 65 + ".wasm", "Q" * 100 + ".wasm",
+               "z" * 200 + ".wasm", "w" * 250 + ".wasm", "x" * 255, "with-dashes_and.dots.v1.2.wasm", "\u00e4\u00f6\u00fc\u00df" * 20 + ".wasm", "1", ".wasm", "%s%d%n.wasm"]
+
+
 def argv_of(o):
     a = ["-t", str(o["t"])]
     if o["f"]:
@@ -207,6 +211,15 @@ def main():
             for o in option_vectors(rng, nfuncs, tier):
                 for form in rng.sample(["plain", "dotdir", "abs", "nested"], 2 if tier == "quick" else 4):
                     jobs.append((name, data, len(data), "valid", o, form))
+            if name == "allsections":
+                # the NAME of the input file (the module name under -m comes from it): one letter to the longest a directory entry
+                # can have, letters, digits and other characters, under every data-segment mode with and without -m
+                for iname in INPUT_NAMES:
+                    for dmode in ("arrays", "gnu-ld", "sectcreate1", "sectcreate2"):
+                        for mflag in (False, True):
+                            if tier == "quick" and (len(jobs) + len(iname)) % 2:
+                                continue
+                            jobs.append((name, data, len(data), "valid", {"t": 2, "f": rng.choice([0, 1]), "p": False, "g": False, "m": mflag, "d": dmode, "c": False, "iname": iname}, "plain"))
             # truncation points: every structural boundary and its neighbours, plus a stride (thorough: every byte for small modules)
             cuts = set()
             for bnd in bounds:
@@ -233,7 +246,7 @@ def main():
             name, data, cut, cls, o, form = jobs[j]
             d = os.path.join(wd, "j%d" % j)
             os.makedirs(os.path.join(d, "x", "y"))
-            inp = os.path.join(d, "in.wasm")
+            inp = os.path.join(d, o.get("iname", "in.wasm"))
             open(inp, "wb").write(data)
             outarg = {"plain": "out.c", "dotdir": "./x/out.c", "abs": os.path.join(d, "x", "out.c"), "nested": "x/y/out.c"}[form]
             res = []
@@ -243,7 +256,7 @@ def main():
                 refargs = ["-r", "ref.wasm"]
             elif o.get("refmissing"):
                 refargs = ["-r", "no-such-file.wasm"]
-            o = {k_: v_ for k_, v_ in o.items() if k_ not in ("ref", "refmissing")}
+            o = {k_: v_ for k_, v_ in o.items() if k_ not in ("ref", "refmissing", "iname")}
             for exe, kind in ((san, "san"), (plain, "plain")):
                 rc, so, se = run([exe] + argv_of(o) + refargs + [inp, outarg], cwd=d, timeout=300,
                                  env={"ASAN_OPTIONS": "detect_leaks=0:exitcode=99:allocator_may_return_null=1", "UBSAN_OPTIONS": "print_stacktrace=1:exitcode=98"})
